@@ -219,7 +219,7 @@ def lint_exact(recipes):
             total = None       # a zero total cannot be divided up: no known total
             zero_total[0] = True
         u, problem = Fraction(0), False
-        exact = True
+        near_rem = False
         for r in rs:
             a = r.amount
             if isinstance(a, Quantity):
@@ -242,6 +242,8 @@ def lint_exact(recipes):
                         continue
                 u += Fraction(a.value) * c / Fraction(total.value)
             elif a.value is None:
+                if abs(u - 1) <= Fraction(1, 10 ** 9):
+                    near_rem = True      # the "anything left?" comparison happens exactly on its threshold
                 if u >= 1:
                     problem = True
                     kinds.append("sub_recipe_reference_non_positive_remainder")
@@ -256,7 +258,7 @@ def lint_exact(recipes):
             else:
                 kinds.append("sub_recipe_used_too_much")
         # distance from the thresholds (0.98, 1/0.98, and 1 for the remainder test), relative
-        near = min(abs(u - Fraction(98, 100)), abs(u - Fraction(100, 98)), abs(u - 1)) <= Fraction(1, 10 ** 9)
+        near = near_rem or (not problem and min(abs(u - Fraction(98, 100)), abs(u - Fraction(100, 98))) <= Fraction(1, 10 ** 9))
         us.append((u, near))
     return kinds, us, zero_total[0]
 
